@@ -28,7 +28,11 @@ def make_case(cid, rng, schema, root, n_ops, disk):
         first = {"op": "lib_create" if v2 else "create", "schema": schema, "dir": d}
     else:
         first = {"op": "lib_create_temporary" if v2 else "create_temporary", "schema": schema}
-    full = [first] + ops
+    pre = []
+    if cid[1:].isdigit() and int(cid[1:]) % 5 == 2:
+        # ids of a long-lived library (around 2^31 / 2^32 / 2^53)
+        pre = GH.first_id_prelude(schema, GH.FIRST_IDS[(int(cid[1:]) // 5) % len(GH.FIRST_IDS)])
+    full = [first] + pre + ops
     marks = [None] * len(full)
 
     def add(op, mark):
